@@ -77,6 +77,12 @@ Proof.
   destruct (check_slots r ar); [discriminate | contradiction].
 Qed.
 
+Lemma assignable_forallb ps s : forallb (fun p => negb (binds p) || has_value s p) ps = assignable ps s.
+Proof.
+  unfold assignable. induction ps as [|p r IH]; [reflexivity|]. cbn [forallb filter].
+  destruct (binds p); cbn [negb orb forallb]; rewrite IH; reflexivity.
+Qed.
+
 (* ---- the loop over the parameters on a constructed spelling ---------------------------------- *)
 Section Spelling.
 Variable ps : list param.
@@ -236,12 +242,6 @@ Proof.
       * exact IS.
       * intros p Hp Hc. apply in_app_or in Hp as [Hp|[<-|[]]]; [apply IJ; assumption|].
         unfold covered, is_vispos in Hc. rewrite Eb in Hc. discriminate.
-Qed.
-
-Lemma assignable_forallb : forallb (fun p => negb (binds p) || has_value s p) ps = assignable ps s.
-Proof.
-  unfold assignable. induction ps as [|p r IH]; [reflexivity|]. cbn [forallb filter].
-  destruct (binds p); cbn [negb orb forallb]; rewrite IH; reflexivity.
 Qed.
 
 (* EXACT characterisation of map_args on a constructed spelling *)
